@@ -128,6 +128,26 @@ def check(run, M, tier):
         if not aliased:
             fresh_seen = True
         # the aliasing assignment is admissible only under max_iter <= 1
+        if aliased and isinstance(getattr(node, "value", None), ast.IfExp):
+            # `self.p = z.copy() if max_iter > 1 else z`: the aliasing arm is the one taken when at most one update can follow
+            ie = node.value
+            from ..vn import negate as _neg
+            pv = VN(real={"max_iter", "self.max_iter"})
+            try:
+                t_ = pv._as_term(pv.ev(ie.test, State()))
+            except Unrecognised:
+                t_ = None
+            multi = [pv._as_term(pv.ev(ast.parse(x, mode="eval").body, State())) for x in ("max_iter > 1", "self.max_iter > 1", "max_iter >= 2", "self.max_iter >= 2")]
+
+            def fresh_expr(e_):
+                return isinstance(e_, ast.Call) and isinstance(e_.func, ast.Attribute) and e_.func.attr == "copy" and not e_.args
+            ok_ie = t_ is not None and ((any(t_ == m for m in multi) and fresh_expr(ie.body)) or (any(t_ == _neg(m) for m in multi) and fresh_expr(ie.orelse)))
+            if ok_ie:
+                fresh_seen = True
+            run.check(ok_ie, "K3", "ConjugateGradient.__init__ self.p alias", loc(init, node),
+                      "p may alias r/z only when max_iter <= 1 (no p-update follows)",
+                      "`%s` lets p alias %s although further updates modify p and r independently" % (unparse(node), aliased), stmt=node)
+            continue
         if aliased:
             guard = _enclosing_else_of_max_iter_gt_1(init, node)
             run.check(guard, "K3", "ConjugateGradient.__init__ self.p alias", loc(init, node),
@@ -153,7 +173,8 @@ def _enclosing_else_of_max_iter_gt_1(func, node):
     vn = VN(real={"max_iter", "self.max_iter"})
 
     def norm(src_or_node):
-        e = ast.parse(src_or_node, mode="eval").body if isinstance(src_or_node, str) else src_or_node
+        from ..model import resolve_temp
+        e = ast.parse(src_or_node, mode="eval").body if isinstance(src_or_node, str) else resolve_temp(func.node, src_or_node)
         try:
             return vn._as_term(vn.ev(e, State()))
         except Unrecognised:
